@@ -115,6 +115,18 @@ func (g *ExprGen) Gen(t Type, depth int) Expr {
 			}
 			return &EAttr{&EArr{els}, &ENum{strconv.Itoa(r.Intn(n))}, false}
 		default:
+			if r.Intn(4) == 0 {
+				// a number as hash key, spelled in a way that is not how the number prints: the key is the number
+				nk := [][2]string{{"1.0", "1"}, {"007", "7"}, {"2.50", "2.5"}, {"10.00", "10"}, {"0.50", "0.5"}, {"3", "3"}}[r.Intn(6)]
+				h := &EHash{[]Expr{&ENum{nk[0]}}, []Expr{g.Gen(TNum, d)}}
+				switch r.Intn(3) {
+				case 0:
+					return &EAttr{&EGroup{h}, &ENum{nk[1]}, false}
+				case 1:
+					return &EAttr{&EGroup{h}, &EStr{nk[1]}, false}
+				}
+				return &EAttr{&EGroup{h}, &ENum{nk[0]}, false}
+			}
 			// value of a single-entry hash
 			k := g.pick([]string{"k", "key", "a1"})
 			h := &EHash{[]Expr{g.hashKey(k)}, []Expr{g.Gen(TNum, d)}}
@@ -313,9 +325,10 @@ func (g *ExprGen) leaf(t Type) Expr {
 // variable lists describing it.
 func StdContext(g *ExprGen) map[string]interface{} {
 	// some names begin with an operator word: they are still names
-	g.NumVars = []string{"n1", "n2", "n3", "n4", "not1", "in2"}
-	g.StrVars = []string{"s1", "s2", "s3", "or3", "is4"}
-	g.BoolVars = []string{"t", "f", "and5"}
+	// ... and some are mixed-case spellings of the keyword literals: names as well
+	g.NumVars = []string{"n1", "n2", "n3", "n4", "not1", "in2", "None"}
+	g.StrVars = []string{"s1", "s2", "s3", "or3", "is4", "True"}
+	g.BoolVars = []string{"t", "f", "and5", "False"}
 	g.ArrVars = []string{"arr1", "arr2"}
 	g.HashVars = []string{"h1"}
 	g.ArrLens = map[string]int{"arr1": 3, "arr2": 0}
@@ -323,6 +336,7 @@ func StdContext(g *ExprGen) map[string]interface{} {
 	g.PatVar = "pat"
 	return map[string]interface{}{
 		"pat": "^a",
+		"None": 9, "True": "tv", "False": true, "Null": "nn",
 		"not1": 4, "in2": uint8(2), "or3": "b", "is4": "Hello", "and5": true,
 		"n1": 3, "n2": 0.5, "n3": int64(10), "n4": float32(7),
 		"s1": "abc", "s2": "", "s3": "12",
